@@ -6,6 +6,13 @@
 #include "spec/tlv.h"
 size_t g_el_k; unsigned char g_el_byte;
 
+/* with env/memops_witness.h only the octet at relative position g_mem_k (and 0..3) survives a copy: the payload copy
+ * must preserve relative position a, the final move relative position b */
+#ifdef EL_MEM_WITNESS
+#define EL_MEM_WITNESS_AT(a, b, opt) (((a) < 4 || (a) == g_mem_k) && (((opt) & KSI_TLV_OPT_NO_MOVE) || (b) < 4 || (b) == g_mem_k))
+#else
+#define EL_MEM_WITNESS_AT(a, b, opt) 1
+#endif
 #define EL_HDR(opt) (((opt) & KSI_TLV_OPT_NO_HEADER) == 0)
 #define EL_CHILD(e) ((e) == &g_el_child)
 #define EL_LEAF(e) ((e)->subList == NULL || g_el_len == 0)
@@ -44,11 +51,13 @@ __CPROVER_ensures(IMPLIES(!EL_CHILD(element) && __CPROVER_return_value == KSI_OK
 			(buf[EL_POS(element, opt, buf_size) + 2] == spec_tlv_enc_hdr_byte(element->ftlv.tag, element->ftlv.is_nc, element->ftlv.is_fwd, EL_DAT(element), 2) &&
 			 buf[EL_POS(element, opt, buf_size) + 3] == spec_tlv_enc_hdr_byte(element->ftlv.tag, element->ftlv.is_nc, element->ftlv.is_fwd, EL_DAT(element), 3)))))
 /* C8 leaf payload octets arrive unchanged, directly after the header */
-__CPROVER_ensures(IMPLIES(!EL_CHILD(element) && EL_LEAF(element) && __CPROVER_return_value == KSI_OK && buf != NULL && g_el_k < EL_DAT(element) && EL_TOT(element, opt) <= buf_size,
+__CPROVER_ensures(IMPLIES(!EL_CHILD(element) && EL_LEAF(element) && __CPROVER_return_value == KSI_OK && buf != NULL && g_el_k < EL_DAT(element) && EL_TOT(element, opt) <= buf_size &&
+		EL_MEM_WITNESS_AT(g_el_k, (EL_TOT(element, opt) - EL_DAT(element)) + g_el_k, opt),
 		buf[EL_POS(element, opt, buf_size) + (EL_TOT(element, opt) - EL_DAT(element)) + g_el_k] == element->ptr[element->ftlv.hdr_len + g_el_k]))
 /* C9 nested: every child serialized once, the children tile the payload (witness child lies between its neighbours, undisturbed) */
 __CPROVER_ensures(IMPLIES(!EL_CHILD(element) && !EL_LEAF(element) && __CPROVER_return_value == KSI_OK, g_el_calls == g_el_len))
-__CPROVER_ensures(IMPLIES(!EL_CHILD(element) && !EL_LEAF(element) && __CPROVER_return_value == KSI_OK && buf != NULL && g_el_w < g_el_len && g_el_k < g_el_w_size && EL_TOT(element, opt) <= buf_size,
+__CPROVER_ensures(IMPLIES(!EL_CHILD(element) && !EL_LEAF(element) && __CPROVER_return_value == KSI_OK && buf != NULL && g_el_w < g_el_len && g_el_k < g_el_w_size && EL_TOT(element, opt) <= buf_size &&
+		EL_MEM_WITNESS_AT(0, EL_TOT(element, opt) - g_el_w_right - g_el_w_size + g_el_k, opt),
 		g_el_w_size <= g_el_sum && g_el_w_right <= g_el_sum - g_el_w_size &&
 		buf[EL_POS(element, opt, buf_size) + EL_TOT(element, opt) - g_el_w_right - g_el_w_size + g_el_k] == g_el_byte))
 /* the child's own write (exact-size buffer, KSI_TLV_OPT_NO_MOVE): names the witness octet */
